@@ -104,7 +104,7 @@ def prune_cache(keep):
     except FileNotFoundError:
         return
     ents.sort(key=lambda e: os.path.getmtime(os.path.join(CACHE, e)), reverse=True)
-    for e in ents[2:]:
+    for e in ents[4:]:
         shutil.rmtree(os.path.join(CACHE, e), ignore_errors=True)
 
 
